@@ -267,7 +267,7 @@ func vmCallHook(c *Ctx, rng interface{ Intn(int) int }) func(hr *HistRun, h int6
 
 // quietTwin replays the blocks of hr on a fresh replica that serves no queries and compares consensus results.
 func quietTwin(c *Ctx, i int, hr *HistRun, sig string) {
-	r, _, err := openReplica(c, c.Dir(fmt.Sprintf("%s-%d-quiet", hr.Opts.Name, i)), hr.G.G, SpawnOpt{}, true)
+	r, _, err := openReplica(c, c.DirI(i, fmt.Sprintf("%s-%d-quiet", hr.Opts.Name, i)), hr.G.G, SpawnOpt{}, true)
 	if err != nil {
 		c.Err(i, "quiet twin", err)
 		return
